@@ -15,6 +15,10 @@ CLAIMED = {
  'C17': dict(text="Lean theorems (no bound on widths, exponents or k): stochastic rounding equals deterministic rounding with a thresholded mode; pointwise result for every draw r < 2^k is the upper neighbour iff 2^k <= r + m; the count of round-away draws over all 2^k draws is exactly m = the distance past the lower neighbour in units of 2^-k of the gap rounded by the mode; representable operands unchanged; mean within 2^-k of the gap (exact when k covers all lost digits); float shape included. Tie: every one of the 2^k scripted draws replayed on the real code and the model for every generated (context, operand), plus a Spec oracle on neighbours/count/one draw.",
              note=TB + "; the real code's single call to the generator is observed by a scripted random.Random subclass (not provable in Lean).",
              tech="Lean 4 proof (induction over List.range, omega) + exhaustive-draw correspondence + Spec oracle", ref="5/C17"),
+
+ 'C04': dict(text="An independent evaluator of the FPy core language written in Lean from the semantics documents (fuel-indexed big-step: contexts as an evaluator argument so `with` cannot leak, heap of shared lists, callee-context rule, unrounded literals/arguments, lazy comparison chains, strict slices/zip, live-list iteration) with the documented rules pinned as theorems; every rounded node goes through the C01/C02 number model. Tie: type-directed random programs printed both as FPy source (real parser + bytecode interpreter) and as S-expressions (Lean evaluator), compared on inputs incl. specials under absent/narrow/REAL caller contexts; the AST the real parser produced is exported and compared with the program text the generator wrote.",
+             note=TB + "; byte.py compiling to Python AST is not proved correct (tied by correspondence); static context-constructor expressions are evaluated by the harness when exporting; programs outside the modelled subset are counted and skipped.",
+             tech="Lean 4 executable semantics + rule theorems; differential execution real interpreter vs Lean evaluator", ref="5/C04"),
 }
 NA_REASON = "check not built yet (work in progress; see DESIGN.md section 8 build order)"
 
